@@ -38,15 +38,20 @@ func (s *Server) DocumentLink(ctx context.Context, params *protocol.DocumentLink
 
 		target := protocol.DocumentURI("file://" + includePath)
 
+		// the link covers the path argument, not the whole directive
+		linkRange := inc.Range
+		if inc.PathRange.Start.Line != 0 {
+			linkRange = inc.PathRange
+		}
 		links = append(links, protocol.DocumentLink{
 			Range: protocol.Range{
 				Start: protocol.Position{
-					Line:      uint32(inc.Range.Start.Line - 1),
-					Character: uint32(inc.Range.Start.Column - 1),
+					Line:      uint32(linkRange.Start.Line - 1),
+					Character: uint32(linkRange.Start.Column - 1),
 				},
 				End: protocol.Position{
-					Line:      uint32(inc.Range.End.Line - 1),
-					Character: uint32(inc.Range.End.Column - 1),
+					Line:      uint32(linkRange.End.Line - 1),
+					Character: uint32(linkRange.End.Column - 1),
 				},
 			},
 			Target: target,
